@@ -23,9 +23,10 @@ import ast
 import itertools
 
 from ..absint import Interp, Raised, Record, Unsupported
-from ..astx import atoms, call_name, calls_named, dotted, enclosing_stmt, expand, facts_at, has_fact, kwarg, last, stmt_list_of
+from ..astx import atoms, call_name, calls_named, dotted, enclosing_stmt, expand, kwarg, last, stmt_list_of
 from ..cfg import CFG, Node, exprs_in_node
-from ..index import AnchorError, FuncNode, ancestors, enclosing_function, parent, qualname_of, walk_shallow
+from ..index import Module, _set_parents, AnchorError, FuncNode, ancestors, enclosing_function, parent, qualname_of, walk_shallow
+from ..report import VERIF
 from ..selftest import Twin
 
 EXPLANATION = (
@@ -165,41 +166,67 @@ def _classify_container(node: ast.AST, ann: set[int], m, depth: int, assign: ast
     return "unknown", f"collection in {type(p).__name__}"
 
 
-def _r1(chk, m) -> None:
+def _scan_uses(m) -> tuple[list[tuple], list[tuple], int]:
+    """(exact-class uses, class-name comparisons, number of conventional issubclass uses) in one module."""
     boundary = _boundary_names(m)
     ann = _annotation_ids(m.tree)
-    conv = 0
-    seen_ok: set[tuple[str, str]] = set()
+    exact, conv_sites = [], []
     uses = [n for n in ast.walk(m.tree) if isinstance(n, ast.Name) and n.id in boundary and isinstance(n.ctx, ast.Load)]
     for n in sorted(uses, key=lambda x: (x.lineno, x.col_offset)):
-        fn = enclosing_function(n)
         kind, how = _classify_use(n, ann, m)
         real = m.imports[n.id].rsplit(".", 1)[1]
         if kind == "type":
             continue
-        if kind == "subclass":
-            conv += 1
-            k = (qualname_of(fn) if fn is not None else "<module>", real)
-            if k not in seen_ok:
-                seen_ok.add(k)
-                chk.ob("C23.R1", f"`{real}` is tested by subclass ({how})", True, m=m, node=n, fn=fn, instance=f"subclass:{real}")
-            continue
         if kind == "unknown":
             raise AnchorError(f"C23.R1: value use of boundary class `{real}` at {m.rel}:{n.lineno} in a context the rule does not understand ({how})")
-        st = enclosing_stmt(n)
-        chk.ob("C23.R1", f"`{real}` is compared by subclass like everywhere else in this module, not by exact class", False, m=m, node=n, fn=fn,
-               instance=f"exact:{real}",
-               reason=f"`{real}` is used as {how} in `{' '.join(ast.unparse(st).split())[:150]}`: true only for the base class itself, while workflows "
-                      f"declare subclasses (the module tests `issubclass(…, {real})` elsewhere)")
-    # string-name comparisons
+        (conv_sites if kind == "subclass" else exact).append((n, real, how))
     reals = {m.imports[b].rsplit(".", 1)[1] for b in boundary}
+    named = []
     for c in ast.walk(m.tree):
         if isinstance(c, ast.Compare):
             for side in [c.left] + list(c.comparators):
                 if isinstance(side, ast.Constant) and isinstance(side.value, str) and side.value in reals:
-                    chk.ob("C23.R1", f"`{side.value}` is compared by subclass, not by class name", False, m=m, node=c, fn=enclosing_function(c),
-                           instance=f"exact-name:{side.value}", reason=f"class name string compared in `{ast.unparse(c)[:100]}`")
-    chk.floor("C23.R1", "issubclass/isinstance uses of boundary classes (the module's convention)", conv, 6)
+                    named.append((c, side.value))
+    return exact, named, conv_sites
+
+
+def _r1(chk, m) -> None:
+    exact, named, conv_sites = _scan_uses(m)
+    seen_ok: set[tuple[str, str]] = set()
+    for n, real, how in conv_sites:
+        fn = enclosing_function(n)
+        k = (qualname_of(fn) if fn is not None else "<module>", real)
+        if k not in seen_ok:
+            seen_ok.add(k)
+            chk.ob("C23.R1", f"`{real}` is tested by subclass ({how})", True, m=m, node=n, fn=fn, instance=f"subclass:{real}")
+    for n, real, how in exact:
+        st = enclosing_stmt(n)
+        chk.ob("C23.R1", f"`{real}` is compared by subclass like everywhere else in this module, not by exact class", False, m=m, node=n, fn=enclosing_function(n),
+               instance=f"exact:{real}",
+               reason=f"`{real}` is used as {how} in `{' '.join(ast.unparse(st).split())[:150]}`: true only for the base class itself, while workflows "
+                      f"declare subclasses (the module tests `issubclass(…, {real})` elsewhere)")
+    for c, name in named:
+        chk.ob("C23.R1", f"`{name}` is compared by subclass, not by class name", False, m=m, node=c, fn=enclosing_function(c),
+               instance=f"exact-name:{name}", reason=f"class name string compared in `{ast.unparse(c)[:100]}`")
+    chk.floor("C23.R1", "issubclass/isinstance uses of boundary classes (the module's convention)", len(conv_sites), 6)
+    # planted positives: the exact-class detectors must report every construct of the fixture (they match nothing else today but the HITL flag)
+    fx = VERIF / "fixtures" / "c23" / "exact_uses.py"
+    if not fx.is_file():
+        raise AnchorError(f"C23.R1: fixture {fx} missing")
+    src = fx.read_text(encoding="utf-8")
+    tree = ast.parse(src)
+    _set_parents(tree)
+    fm = Module("fixture.c23.exact_uses", fx, "fixtures/c23/exact_uses.py", src, tree)
+    for node in ast.walk(tree):
+        if isinstance(node, ast.ImportFrom):
+            for a in node.names:
+                fm.imports[a.asname or a.name] = f"{node.module}.{a.name}"
+    fexact, fnamed, fconv = _scan_uses(fm)
+    got = {qualname_of(enclosing_function(n)) for n, _r, _h in fexact} | {qualname_of(enclosing_function(c)) for c, _n in fnamed}
+    want = {"by_identity", "by_membership", "by_set_algebra", "by_lookup", "by_name"}
+    if got != want or len(fconv) != 2:
+        raise AnchorError(f"C23.R1: planted exact-class uses not reported as expected (reported {sorted(got)}, conventional {len(fconv)})")
+    chk.floor("C23.R1", "planted exact-class uses reported in fixtures/c23/exact_uses.py", len(got), 5)
 
 
 # ------------------------------------------------------------------------------------------- R2
@@ -275,7 +302,7 @@ def _findings_raise(chk, m, fn, callee: str, rule_inst: str, clause: str) -> Non
     ok = cfg.exit not in r
     p = cfg.path(starts[0], cfg.exit, labels_excluded=NOEXC) if (not ok and starts) else []
     chk.ob("C23.R2", f"{clause}: a non-empty result of `{callee}` always ends in a raise", ok, m=m, node=stmt, fn=fn, instance=rule_inst,
-           reason=f"a normal return is reachable without `{var}` being known empty")
+           reason=f"a normal return is reachable without `{var}` being known empty", path=[f"{n.kind}@{n.line}" for n in p if n.ast is not None][:10])
 
 
 def _resolve(expr: ast.AST, at: ast.AST, depth: int = 5) -> ast.AST:
